@@ -217,8 +217,12 @@ fn dev_ev(case: &Value, out: &mut Vec<Value>) {
         })
     }}; }
     macro_rules! int_ty { ($t:ty) => {{
-        let xa: Vec<$t> = a.iter().map(|&v| <$t>::from(v as i32)).collect();
-        let xb: Vec<$t> = b.iter().map(|&v| <$t>::from(v as i32)).collect();
+        // optional large common offset 2^ibase (differences stay small and exact)
+        let ibase = case.get("ibase").and_then(|x| x.as_i64()).unwrap_or(-1);
+        let mut off = <$t>::from(0i32);
+        if ibase >= 0 { off = <$t>::from(1i32); for _ in 0..ibase { off = off.clone() + off.clone(); } }
+        let xa: Vec<$t> = a.iter().map(|&v| off.clone() + <$t>::from(v as i32)).collect();
+        let xb: Vec<$t> = b.iter().map(|&v| off.clone() + <$t>::from(v as i32)).collect();
         let (pa, pb) = (l1.build(&xa, |_| <$t>::from(77i32)), l2.build(&xb, |_| <$t>::from(55i32)));
         let (va, vb) = (l1.view(&pa), l2.view(&pb));
         let toi = |v: $t, _pow: i32| -> Value { json!(num_traits::ToPrimitive::to_i64(&v).unwrap_or(-1)) };
@@ -305,9 +309,31 @@ fn ent_ev<T: F>(case: &Value, out: &mut Vec<Value>) {
     out.push(Value::Object(o));
 }
 
+/// count_eq / count_neq on float arrays containing NaN (code 99), incl. operands aliasing the same memory.
+fn devnan_ev(case: &Value, out: &mut Vec<Value>) {
+    let a = jints(&case["a"]);
+    let b = jints(&case["b"]);
+    let shape = shape_of(case, a.len());
+    let (l1, l2) = (lay_of(case, "lay1", &shape), lay_of(case, "lay2", &shape));
+    let mk = |v: i64| -> f64 { if v == 99 { f64::NAN } else { v as f64 / 4.0 } };
+    let (pa, pb) = (l1.build(&a.iter().map(|&v| mk(v)).collect::<Vec<_>>(), |_| 77.0), l2.build(&b.iter().map(|&v| mk(v)).collect::<Vec<_>>(), |_| 55.0));
+    let (va, vb) = (l1.view(&pa), l2.view(&pb));
+    let c = |r: Result<Result<usize, ndarray_stats::errors::MultiInputError>, ()>| -> i64 { match r { Ok(Ok(v)) => v as i64, _ => -1 } };
+    let mut o = case.as_object().unwrap().clone();
+    o.insert("ev".into(), json!("devnan"));
+    o.insert("eq_ab".into(), json!(c(guarded(|| va.count_eq(&vb)))));
+    o.insert("neq_ab".into(), json!(c(guarded(|| va.count_neq(&vb)))));
+    o.insert("eq_ba".into(), json!(c(guarded(|| vb.count_eq(&va)))));
+    o.insert("eq_alias".into(), json!(c(guarded(|| va.count_eq(&va.clone())))));          // the same memory, the same layout
+    o.insert("neq_alias".into(), json!(c(guarded(|| va.count_neq(&l1.view(&pa))))));
+    o.insert("eq_copy".into(), json!(c(guarded(|| va.count_eq(&va.to_owned())))));
+    out.push(Value::Object(o));
+}
+
 pub fn run(case: &Value, _params: &Params, out: &mut Vec<Value>) {
     let ev = jstr(case, "ev", "");
     let ty = jstr(case, "ty", "f64");
+    if ev == "devnan" { return devnan_ev(case, out); }
     match ev {
         "summ" => match ty { "f32" => summ_float::<f32>(case, out), "f64" => summ_float::<f64>(case, out), _ => summ_int(case, out) },
         "corr" => match ty { "f32" => corr_ev::<f32>(case, out), _ => corr_ev::<f64>(case, out) },
@@ -425,6 +451,14 @@ pub fn gen(seed: u64, count: usize, tier: &str, params: &Params) -> Vec<Value> {
                     cases.push(json!({"ev": "dev", "ty": *rng.pick(&["i64", "f64"]), "alias": "step", "base": base, "a": a, "b": b, "qe": 8, "tol": 2, "maxv": 4, "shape": [h]}));
                 }
             }
+            "dev" if rng.chance(1, 6) => {
+                let n = rng.range(1, 8) as usize;
+                let shape = random_shape(&mut rng, n);
+                let (lay1, lay2) = two_lays(&mut rng, &shape);
+                let a: Vec<i64> = (0..n).map(|_| if rng.chance(1, 4) { 99 } else { rng.range(-3, 3) }).collect();
+                let b: Vec<i64> = a.iter().map(|&v| if rng.chance(1, 2) { v } else if rng.chance(1, 4) { 99 } else { rng.range(-3, 3) }).collect();
+                cases.push(json!({"ev": "devnan", "a": a, "b": b, "shape": shape, "lay1": lay1, "lay2": lay2}));
+            }
             "dev" => {
                 let n = rng.range(1, if big { 16 } else { 9 }) as usize;
                 let shape = random_shape(&mut rng, n);
@@ -432,7 +466,10 @@ pub fn gen(seed: u64, count: usize, tier: &str, params: &Params) -> Vec<Value> {
                 let a: Vec<i64> = (0..n).map(|_| rng.range(-12, 12)).collect();
                 let b: Vec<i64> = a.iter().map(|&v| if rng.chance(1, 3) { v } else { rng.range(-12, 12) }).collect();
                 // psnr exact points: sometimes force maxv^2 * n = 10^k * sq
-                cases.push(json!({"ev": "dev", "ty": *rng.pick(&["i32", "i64", "bigint", "f32", "f64"]), "a": a, "b": b, "qe": 8, "tol": 2, "maxv": *rng.pick(&[1i64, 4, 10, 40]),
+                let ty = *rng.pick(&["i32", "i64", "bigint", "f32", "f64"]);
+                // integers far beyond 2^53 with small differences: the measures are functions of the exact integer distances
+                let ibase: i64 = match ty { "i64" => *rng.pick(&[-1i64, -1, 55, 61]), "bigint" => *rng.pick(&[-1i64, 70, 200]), _ => -1 };
+                cases.push(json!({"ev": "dev", "ty": ty, "a": a, "b": b, "qe": 8, "tol": 2, "maxv": *rng.pick(&[1i64, 4, 10, 40]), "ibase": ibase,
                                   "shape": shape, "lay1": lay1, "lay2": lay2}));
             }
             _ => {
